@@ -117,7 +117,7 @@ def run(case):
     out = Outcome()
     fs = SimFS()
     env.restore_registry()
-    env.bf3file.open = fs.open
+    env.use_fs(fs)
     bf = env.bec2file
     pool = case["pool"]
     rng = prov.SimRng(case["rng"])
